@@ -375,6 +375,24 @@ def run_nocontext():
             viol.append(("second-call-did-not-raise", {}))
         except TooManyCalls:
             pass
+        # the callable may also be run while the originating action is (still / again) current, e.g.
+        # inline, through copy_context().run or asyncio.to_thread: the reserved position is what counts
+        for how in ("inline", "copied-context"):
+            del seen[:]
+            with start_action(action_type="o2") as a:
+                w2 = preserve_context(lambda: log_message("inside2"))
+                log_message("between")
+                if how == "inline":
+                    w2()
+                else:
+                    contextvars.copy_context().run(w2)
+                log_message("after")
+            starts = [m for m in seen if m.get("action_type") == "eliot:remote_task" and m.get("action_status") == "started"]
+            if len(starts) != 1 or starts[0]["task_level"] != [2, 1] or starts[0]["task_uuid"] != a.task_uuid:
+                viol.append(("remote-not-at-reserved-position:" + how, {"got": [m["task_level"] for m in starts]}))
+            levels = sorted(tuple(m["task_level"]) for m in seen if m["task_uuid"] == a.task_uuid)
+            if levels != [(1,), (2, 1), (2, 2), (2, 3), (3,), (4,), (5,)]:
+                viol.append(("hand-off-levels:" + how, {"got": levels}))
 
     world.run_isolated(go)
     return viol
